@@ -203,3 +203,212 @@ func reachesFunc(p *core.Prog, fn, target *ssa.Function, depth int) bool {
 	})
 	return found
 }
+
+// evalTypePredicate evaluates a boolean method of account.Account whose
+// result depends only on the accountType field, for accountType = t, by
+// constant propagation over its SSA form (comparisons with constants, boolean
+// connectives compiled to branches and phis). ok=false if the body does
+// anything else.
+func evalTypePredicate(fn *ssa.Function, typeField *types.Var, t int64) (val bool, ok bool) {
+	if fn == nil || len(fn.Blocks) == 0 {
+		return false, false
+	}
+	vals := map[ssa.Value]int64{} // ints and bools (0/1)
+	var eval func(v ssa.Value) (int64, bool)
+	eval = func(v ssa.Value) (int64, bool) {
+		if k, ok := vals[v]; ok {
+			return k, true
+		}
+		switch x := v.(type) {
+		case *ssa.Const:
+			if n, ok := core.ConstInt(x); ok {
+				return n, true
+			}
+			if x.Value != nil && x.Value.Kind().String() == "Bool" {
+				if x.Value.String() == "true" {
+					return 1, true
+				}
+				return 0, true
+			}
+		case *ssa.Field:
+			if core.FieldOf(x) == typeField {
+				return t, true
+			}
+		case *ssa.UnOp:
+			if x.Op == token.MUL {
+				if fa, ok := x.X.(*ssa.FieldAddr); ok && core.FieldOf(fa) == typeField {
+					return t, true
+				}
+			}
+			if x.Op == token.NOT {
+				if k, ok := eval(x.X); ok {
+					return 1 - k, true
+				}
+			}
+		case *ssa.Convert:
+			return eval(x.X)
+		case *ssa.ChangeType:
+			return eval(x.X)
+		case *ssa.BinOp:
+			a, ok1 := eval(x.X)
+			b, ok2 := eval(x.Y)
+			if !ok1 || !ok2 {
+				return 0, false
+			}
+			r := false
+			switch x.Op {
+			case token.EQL:
+				r = a == b
+			case token.NEQ:
+				r = a != b
+			case token.LSS:
+				r = a < b
+			case token.LEQ:
+				r = a <= b
+			case token.GTR:
+				r = a > b
+			case token.GEQ:
+				r = a >= b
+			case token.AND:
+				return a & b, true
+			case token.OR:
+				return a | b, true
+			default:
+				return 0, false
+			}
+			if r {
+				return 1, true
+			}
+			return 0, true
+		}
+		return 0, false
+	}
+	b := fn.Blocks[0]
+	var prev *ssa.BasicBlock
+	for steps := 0; steps < 64; steps++ {
+		for _, ins := range b.Instrs {
+			switch x := ins.(type) {
+			case *ssa.Phi:
+				for i, p := range b.Preds {
+					if p == prev {
+						k, ok := eval(x.Edges[i])
+						if !ok {
+							return false, false
+						}
+						vals[x] = k
+					}
+				}
+			case *ssa.Return:
+				if len(x.Results) != 1 {
+					return false, false
+				}
+				k, ok := eval(x.Results[0])
+				return k == 1, ok
+			case *ssa.If:
+				k, ok := eval(x.Cond)
+				if !ok {
+					return false, false
+				}
+				prev = b
+				if k == 1 {
+					b = b.Succs[0]
+				} else {
+					b = b.Succs[1]
+				}
+			case *ssa.Jump:
+				prev = b
+				b = b.Succs[0]
+			case *ssa.DebugRef, *ssa.Alloc, *ssa.Store, *ssa.FieldAddr, *ssa.UnOp, *ssa.BinOp, *ssa.Field, *ssa.Convert, *ssa.ChangeType:
+				// values are evaluated on demand; a spilled receiver (Alloc+Store) is harmless
+			default:
+				return false, false
+			}
+			if _, isBr := ins.(*ssa.If); isBr {
+				break
+			}
+			if _, isJ := ins.(*ssa.Jump); isJ {
+				break
+			}
+		}
+	}
+	return false, false
+}
+
+// RuleKAcctPredicates — the account-type predicates mean what every rule and
+// every caller takes them to mean: IsAL is true exactly for ASSETS and
+// LIABILITIES, IsIE exactly for INCOME and EXPENSES, decided by evaluating the
+// two method bodies for each of the five values of the type enumeration (the
+// bodies depend on nothing else). The accrual expansion splits the legs for
+// which IsIE holds and keeps the others on their date; the checker and the
+// valuation track positions for which IsAL holds.
+func RuleKAcctPredicates(c *core.Ctx) {
+	const rule = "K-acct-predicates"
+	p := c.P
+	typeField := p.Field(pkgAccount, "Account", "accountType")
+	if typeField == nil {
+		c.Anchor(rule, "account.Account.accountType")
+		return
+	}
+	// the enumeration: constants of type account.Type, by name
+	enum := map[string]int64{}
+	if pk := p.Package(pkgAccount); pk != nil {
+		for _, n := range pk.Scope().Names() {
+			if k, ok := pk.Scope().Lookup(n).(*types.Const); ok && strings.HasSuffix(k.Type().String(), "account.Type") {
+				if v, ok := constantInt64(k); ok {
+					enum[n] = v
+				}
+			}
+		}
+	}
+	want := map[string]map[string]bool{
+		"IsAL": {"ASSETS": true, "LIABILITIES": true},
+		"IsIE": {"INCOME": true, "EXPENSES": true},
+	}
+	for _, n := range acctTypeNames {
+		if _, ok := enum[n]; !ok {
+			c.Anchor(rule, "account type constant "+n)
+			return
+		}
+	}
+	for _, name := range []string{"IsAL", "IsIE"} {
+		fn := p.Func(pkgAccount, "Account."+name)
+		key := "account.Account." + name + ":true exactly for its two types"
+		if fn == nil {
+			c.Anchor(rule, "account.Account."+name)
+			continue
+		}
+		var wrong []string
+		undecided := false
+		for _, tn := range acctTypeNames {
+			got, ok := evalTypePredicate(fn, typeField, enum[tn])
+			if !ok {
+				undecided = true
+				break
+			}
+			if got != want[name][tn] {
+				wrong = append(wrong, fmt.Sprintf("%s(%s) = %v", name, tn, got))
+			}
+		}
+		switch {
+		case undecided:
+			c.Ob(rule, key, fn.Pos(), core.FuncName(fn), core.Undecided, "the predicate's body is not a function of the account type alone that this rule can evaluate")
+		case len(wrong) > 0:
+			c.Ob(rule, key, fn.Pos(), core.FuncName(fn), core.Violated, strings.Join(wrong, ", ")+": legs on such accounts are treated as the wrong kind (an accrual splits or keeps them wrongly, positions are tracked or dropped wrongly)")
+		default:
+			c.Ob(rule, key, fn.Pos(), core.FuncName(fn), core.Discharged, "evaluated for the five account types")
+		}
+	}
+	c.Floor(rule, 2)
+}
+
+func constantInt64(k *types.Const) (int64, bool) {
+	v := k.Val()
+	if v == nil {
+		return 0, false
+	}
+	var n int64
+	if _, err := fmt.Sscan(v.ExactString(), &n); err != nil {
+		return 0, false
+	}
+	return n, true
+}
